@@ -86,6 +86,10 @@ def run(model: Model, rep: Report) -> None:
     _revreadlines(model, rep)
     # ---------------------------------------------------------------- R8
     cache_writers_rule(model, rep, "C02-R8")
+    # ---------------------------------------------------------------- R9 (shared with C03-R9): the classic table is read line by line
+    from .tokenizer import refill_before_read_rule
+
+    refill_before_read_rule(model, rep, "C02-R9", model.func("pdfminer.psparser.PSBaseParser.nextline"))
     # ---------------------------------------------------------------- R6
     r6 = rep.rule("C02-R6", "BIND", "object-stream member lookup: objs[N*2 + index] with index from the xref entry; xref-stream entry fields", 4)
     om = model.func(DOC + "._getobj_objstm")
@@ -155,6 +159,14 @@ def _xrefstream(model: Model, rep: Report) -> None:
             r3.check(whole, site(f, offs[0]), f.qualname, f"{name}: entry number `{unparse(k)}` uses the running counter {sorted(running)} carried across ranges", why=f"counter updates {bumps} do not add the range size `{size}`")
         else:
             r3.violation(site(f, offs[0]), f.qualname, f"{name}: entry number `{unparse(k)}` restarts at 0 in every range", "entries of the second and later /Index ranges are read from the start of the stream: with /Index [0 2 10 2] objects 10, 11 are judged by entries 0, 1")
+    # both readers decode the entry type the same way: first field, default 1 when its width is 0 (7.5.8.2)
+    tf = {}
+    for name in ("get_pos", "get_objids"):
+        f = model.func(D + "PDFXRefStream." + name)
+        a = [n for n in walk_no_nested(f.node) if isinstance(n, ast.Assign) and unparse(n.targets[0]) == "f1"]
+        tf[name] = ("".join(unparse(a[0].value).split()) if a else None, f, a[0] if a else None)
+    for name, (txt, f, node) in tf.items():
+        r3.check(txt == "nunpack(ent[:self.fl1],1)", site(f, node) if node is not None else site(f), f.qualname, f"{name}: entry type = nunpack(first field, default 1)", why=f"type field read as `{txt}`: with /W [0 ...] the type defaults to 1 (in use); without the default every entry of such a stream counts as free")
     gp = model.func(D + "PDFXRefStream.get_pos")
     tests = [n for n in walk_no_nested(gp.node) if isinstance(n, ast.If) and "objid" in unparse(n.test) and "start" in unparse(n.test)]
     okm = False
